@@ -146,6 +146,9 @@ fn arith_case(out: &mut Out, a: (i64, i64), b: (i64, i64), d: Duration) {
             });
         }
     }
+    // rusl: TryFrom<Duration> for TimeSpec (what thread::sleep hands to nanosleep)
+    out.ev(&json!({"ty":"rusl","op":"to_timespec","a":dv(d),"b":tv(0,0),
+        "out": out_ts(guarded(|| TimeSpec::try_from(d).ok()))}));
     // SystemTime API (negative seconds allowed: panic-freedom)
     let sa = SystemTime::from(ta);
     let sb = SystemTime::from(tb);
@@ -288,8 +291,15 @@ fn clock(threads: usize, readings: usize) {
                     evs.push(json!({"ev":"elapsed","lane":th,"base_s":base_ts.seconds(),"base_ns":base_ts.nanoseconds(),
                         "ds":d.as_secs(),"dns":d.subsec_nanos(),"bs":b.0,"bns":b.1,"s":a.0,"ns":a.1}));
                 }
-                // three flavours of reading: MonotonicInstant::now, Instant::now, and elapsed() of ZERO
-                let (s, ns) = match k % 3 {
+                // four flavours of reading: MonotonicInstant::now, Instant::now, elapsed() of ZERO, rusl clock_get_time
+                let (s, ns) = match k % 4 {
+                    3 => {
+                        // rusl's fallible wrapper; an Err is reported as a reading of (-1, 0) and rejected
+                        match rusl::time::clock_get_time(rusl::platform::ClockId::CLOCK_MONOTONIC) {
+                            Ok(t) => (t.seconds(), t.nanoseconds()),
+                            Err(_) => (-1, 0),
+                        }
+                    }
                     0 => mono(),
                     1 => {
                         let i = Instant::now();
